@@ -76,6 +76,8 @@ func runC08(c *Ctx) {
 		c.verdict(okOnce, c.nm(hh)+" | validated batch committed by one WriteHeaders outside any loop", c.P.Pos(hh.Pos()), "one batch write, not inside a loop", "the validated batch is not committed by exactly one WriteHeaders call outside the per-header loop", c.ats(batch)...)
 	})
 
+	c.rule("C08.O6", "every batch the importer makes durable leaves both stores openable (a filter batch written without its tip block hash leaves a zero tip pointer that the next start-up cannot resolve): "+consistentBatchesDoc, func() { c.consistentBatches() })
+
 	c.rule("C08.O4", "start-up reconciliation: on every non-empty open both constructors read the index tip (chainTip), compare it with the last record in the file and cut the file back (truncateHeaders) when they differ, before returning the store", func() {
 		for _, spec := range []struct{ name, eq string }{{fnNewB, "IsEqual"}, {fnNewF, "IsEqual"}} {
 			fn := c.fn(spec.name)
